@@ -409,8 +409,51 @@ func (ft *faulter) object(root *sRoot, doc *jval, pos string) {
 				child = "top"
 			}
 			ft.field(p.field, m.val, child)
+			ft.protoOneofMulti(root, doc, p, m.val, pos)
 		}
 	}
+}
+
+// protoOneofMulti: "more than one key in a oneof" for a plain (anonymous) proto oneof, whose members are
+// ordinary optional properties of the J5 object: the document has the non-null member p, a second
+// member of the same proto oneof (same message: same path prefix) is appended. Rejected since /repo
+// 25c97b7 (before, protobuf silently kept only the last member).
+func (ft *faulter) protoOneofMulti(root *sRoot, doc *jval, p *sProp, val *jval, pos string) {
+	if p.oneof == nil || val == nil || val.kind == jNull {
+		return
+	}
+	var others []*sProp
+	for _, o := range root.props {
+		if o == p || o.json == p.json || o.oneof == nil || o.oneof.FullName() != p.oneof.FullName() || len(o.path) != len(p.path) {
+			continue
+		}
+		same := true
+		for i := 0; i+1 < len(p.path); i++ {
+			if o.path[i].Number() != p.path[i].Number() {
+				same = false
+			}
+		}
+		if !same || o.final().Number() == p.final().Number() || doc.get(o.json) != nil {
+			continue
+		}
+		if o.field.kind == "array" || o.field.kind == "map" || o.field.kind == "anyj5" || o.field.kind == "anypb" || sampleJSON(o.field) == nil {
+			continue
+		}
+		others = append(others, o)
+	}
+	if len(others) == 0 {
+		return
+	}
+	o := others[ft.r.IntN(len(others))]
+	first := ft.r.IntN(2) == 0
+	ft.add("proto-oneof-multi", "object", pos, func() {
+		nm := jmember{key: o.json, keyRaw: string(quoteJSON(o.json)), val: sampleJSON(o.field)}
+		if first {
+			doc.members = append([]jmember{nm}, doc.members...)
+		} else {
+			doc.members = append(doc.members, nm)
+		}
+	})
 }
 
 func (ft *faulter) oneof(root *sRoot, doc *jval, pos string) {
